@@ -82,6 +82,7 @@ func cache17Scenario(w *World, p *Plan, rec *Record) {
 	for i := range trxs {
 		idxOf[trxs[i].Hash] = i
 	}
+	dupListed := false
 	listing := func(addr int) (string, error) {
 		ts, err := h.ReadTransactions(w.WAddr[addr])
 		if err != nil && !errors.Is(err, cache.ErrTransactionNotFound) {
@@ -90,6 +91,9 @@ func cache17Scenario(w *World, p *Plan, rec *Record) {
 		set := map[int]bool{}
 		for _, t := range ts {
 			if i, ok := idxOf[t.Hash]; ok {
+				if set[i] {
+					dupListed = true // one awaiting transaction, listed twice for the same address
+				}
 				set[i] = true
 			} else {
 				set[-1] = true
@@ -188,6 +192,10 @@ func cache17Scenario(w *World, p *Plan, rec *Record) {
 	if p.Cfg.PreemptP == 0 {
 		// sequential: every step is compared with the model
 		nops := 10 + r.Intn(40)
+		// a listing is itself an operation of the cache (it prunes stale index entries): half of the runs
+		// compare all listings after every step, the other half only now and then, so that states which
+		// only exist between two reads are reached too
+		lazy := r.Chance(0.5)
 		for k := 0; k < nops; k++ {
 			if r.Chance(0.05) {
 				d := time.Duration(r.Intn(int(life/time.Second)*2)) * time.Second
@@ -237,7 +245,9 @@ func cache17Scenario(w *World, p *Plan, rec *Record) {
 					}
 				}
 			}
-			checkAll("sequential")
+			if !lazy || k == nops-1 || r.Chance(0.12) {
+				checkAll("sequential")
+			}
 			if len(w.Viol) > 0 {
 				break
 			}
@@ -333,6 +343,9 @@ func cache17Scenario(w *World, p *Plan, rec *Record) {
 				sample = append(sample, *o)
 			}
 		}
+	}
+	if dupListed {
+		w.violate("C17", "listing", "transaction-listed-twice-for-one-address", -1, "a listing returned the same awaiting transaction more than once")
 	}
 	rec.Sample = map[string]any{"transactions": ntrx, "wallets": nw, "preempt_p": p.Cfg.PreemptP, "ops": sample}
 }
